@@ -84,8 +84,14 @@ def run(chk, ctx) -> None:
             chk.ob('C05.polarity', fi.qualname, False, fi.loc, 'no "best = candidate" update found in the search loop')
         # ---- error discipline
         raises = [p for p in ctx.paths(fi) if p.raised]
-        none_t = [T.cmp('Is', ('name', b), ('const', None)) for _, b, _ in sites]
         ok = bool(raises) and all(p.outcome[1] == 'ValueError' for p in raises)
+        # ... and exactly when nothing was found: the raise is under `best is None`, the return under `best is not None`
+        for p in ctx.paths(fi):
+            last = [c for c in p.conds() if c[0] in ('is', 'isnot') and ('const', None) in c[1]]
+            if p.raised:
+                ok &= bool(last) and last[-1][0] == 'is'
+            elif p.returned:
+                ok &= bool(last) and last[-1][0] == 'isnot'
         chk.ob('C05.errors', f'{fi.qualname}:nothing_formed', ok, fi.loc,
                'ValueError (and only that) when no legal combination exists')
         trys = [n for n in walk_no_nested(fi.node) if isinstance(n, ast.Try)]
